@@ -51,6 +51,9 @@ def main(args):
     try:
         archive_version_index = None
         staging_path = ctx.output_path / ARCHIVE_STAGING
+        # An interrupted restore may have left its staging directory behind.
+        # Never mix its contents with the archive we are about to extract.
+        shutil.rmtree(staging_path, ignore_errors=True)
         staging_path.mkdir(exist_ok=True)
         extract_archive(archive_file, staging_path)
 
